@@ -9,6 +9,9 @@ REL = {
  "after-hooks-swapped": "C08 C09 C20 C03",
  "replay-default-batch-50": "C11 C12 C18 C17", "sqlite-synchronous-full": "C10 C11 C14 C12",
  "persist-typename-first": "C09 C13 C20 C12", "upcast-dfs-iterative": "C16 C17 C03", "wait-channel-based": "C06 C03 C05 C07 C20",
+ "unsubscribe-last-match": "C01 C02 C03 C04 C07", "clearupcasts-in-place": "C16 C17 C03", "apply-step-bound": "C16 C17 C03",
+ "memstore-subscription-mutex": "C03 C10 C12", "once-retire-helper": "C01 C02 C04 C03", "panic-message-guarded": "C05 C20 C03",
+ "collection-clear-by-prefix": "C18 C19", "control-malformed-rejected": "C19 C18",
 }
 def main():
     only = sys.argv[1:]
@@ -26,6 +29,8 @@ def main():
                 continue
             ok = True
             for m in [".", "stores/sqlite"]:
+                if m == "." and os.environ.get("REF_SKIP_ROOT_SUITE"):
+                    continue
                 t = subprocess.run(["go1.26.8", "test", "-count=1", "./..."], cwd=os.path.join(wt, m), env=ENV, capture_output=True, text=True)
                 ok = ok and t.returncode == 0
             res = {"applies": True, "suite_pass": ok, "checks": {}}
